@@ -41,9 +41,9 @@ type c33Plan struct {
 	Kinds    []int
 	Yields   []int
 	FailLate []bool // a failing job first waits for the late gate (so that it fails while the submitter/Wait is blocked)
-	DoneAt   int // base: Done() is called after this many submissions, the rest is still submitted
-	PrefFail int // batch: index of the batch whose preparation fails, -1 = none
-	LateUS   int // delay before the late gate opens
+	DoneAt   int    // base: Done() is called after this many submissions, the rest is still submitted
+	PrefFail int    // batch: index of the batch whose preparation fails, -1 = none
+	LateUS   int    // delay before the late gate opens
 }
 
 func (p c33Plan) fingerprint() string {
@@ -495,7 +495,6 @@ func TestC33(t *testing.T) {
 			if isPref && p.PrefFail >= 0 {
 				return
 			}
-
 
 			if isCanceled && x.cancelled.Load() {
 				return
